@@ -636,3 +636,24 @@ def poly_cmp(test: ast.AST, truth: bool = True) -> tuple[dict, int] | None:
     if op is ast.GtE:
         return poly_sub(r, l), 0
     return None
+
+
+def lin_atoms(e: ast.AST) -> dict[str, int]:
+    """linear form in which every sub-expression that is not +, -, integer constant or a product with
+    an integer constant is an atom named by its normalised text (`seg.duration + 0` -> {seg.duration: 1})"""
+    if isinstance(e, ast.Constant) and isinstance(e.value, int) and not isinstance(e.value, bool):
+        return {'': e.value} if e.value else {}
+    if isinstance(e, ast.UnaryOp) and isinstance(e.op, ast.USub):
+        return {k: -v for k, v in lin_atoms(e.operand).items()}
+    if isinstance(e, ast.BinOp) and isinstance(e.op, (ast.Add, ast.Sub)):
+        a, b = lin_atoms(e.left), lin_atoms(e.right)
+        sg = 1 if isinstance(e.op, ast.Add) else -1
+        out = dict(a)
+        for k, v in b.items():
+            out[k] = out.get(k, 0) + sg * v
+        return {k: v for k, v in out.items() if v}
+    if isinstance(e, ast.BinOp) and isinstance(e.op, ast.Mult):
+        for c, o in ((e.left, e.right), (e.right, e.left)):
+            if isinstance(c, ast.Constant) and isinstance(c.value, int) and not isinstance(c.value, bool):
+                return {k: v * c.value for k, v in lin_atoms(o).items() if v * c.value}
+    return {norm(e): 1}
